@@ -87,7 +87,6 @@ void rec_view(const char *ad, const char *it, const char *tag, const M &A, const
         o.i("rows", n).i("cols", m).i("nnz", backend::nonzeros(V));
         std::vector<long long> ptr(1, 0), col; std::vector<double> val;
         for (size_t i = 0; i < n; ++i) { for (auto a = backend::row_begin(V, i); a; ++a) { col.push_back((long long)a.col()); val.push_back((double)a.value()); } ptr.push_back((long long)col.size()); }
-        vr::obj q; q.i("n", n).i("m", m).ints("ptr", ptr).ints("col", col).dbls("val", val, shift); if (!q.exact) o.exact = false;
         // row iterators are independent objects: two iterators (rows i and i+1, and twice the same row) are alive at the same
         // time on this thread and advanced in turn; each must enumerate exactly what it enumerates when read alone
         bool indep = true;
@@ -102,13 +101,23 @@ void rec_view(const char *ad, const char *it, const char *tag, const M &A, const
             if (indep) indep = !(bool)a && !(bool)b;
         }
         o.b("iters_independent", indep);
-        M C(V);
-        bool same = C.nrows == n && C.ncols == m && (size_t)C.ptr[n] == col.size();
-        for (size_t i = 0; same && i <= n; ++i) same = C.ptr[i] == ptr[i];
-        for (size_t p = 0; same && p < col.size(); ++p) same = C.col[p] == col[p] && C.val[p] == val[p];
+        // an adapter that enumerates column numbers outside the matrix is recorded as it is (TLC rejects the line);
+        // building a CRS from it or multiplying with it would only crash the recorder
+        bool sane = true; for (long long c : col) if (c < 0 || c >= (long long)m) sane = false;
+        for (double v : val) if (!vr::small_int(std::ldexp(v, shift))) sane = false;
+        bool same = false, direct = false;
         std::vector<double> x(m), y(n, std::numeric_limits<double>::quiet_NaN());
         for (size_t j = 0; j < m; ++j) x[j] = (double)((j * 7 + 3) % 5) - 2;
-        bool direct = spmv_if(V, C, x, y, std::integral_constant<bool, backend::detail::use_builtin_matrix_ops<View>::value>());
+        if (!sane) { for (double &v : val) if (!vr::small_int(std::ldexp(v, shift))) v = 77777; for (double &v : y) v = 0; }
+        else {
+        M C(V);
+        same = C.nrows == n && C.ncols == m && (size_t)C.ptr[n] == col.size();
+        for (size_t i = 0; same && i <= n; ++i) same = C.ptr[i] == ptr[i];
+        for (size_t p = 0; same && p < col.size(); ++p) same = C.col[p] == col[p] && C.val[p] == val[p];
+        direct = spmv_if(V, C, x, y, std::integral_constant<bool, backend::detail::use_builtin_matrix_ops<View>::value>());
+        }
+        vr::obj q; q.i("n", n).i("m", m).ints("ptr", ptr).ints("col", col).dbls("val", val, sane ? shift : 0); if (!q.exact) o.exact = false;
+        o.b("enumeration_sane", sane);
         o.raw("A", J(A, o)).raw("out", q.done()).b("ctor_same", same).b("spmv_direct", direct).dbls("x", x).dbls("y", y, shift);
     } catch (const std::exception &e) { o.str("exc", e.what()); }
     std::string s = o.done();
